@@ -38,11 +38,13 @@ theorem private_key_layout (h : Lawful lib) (seed sk : Bytes) (hsk : newKeyFromS
 for a prime-order base). -/
 theorem clamped_scalar_nonzero (hb : Bytes) : Iota.Edwards.clamp hb % L ≠ 0 := E2_clamp hb
 
+omit [AddCommGroup G] in
 /-- the only failures are the documented panics on wrong lengths. -/
 theorem panics_iff (seed sk msg : Bytes) :
     (newKeyFromSeed lib seed = none ↔ seed.length ≠ 32) ∧ (sign lib sk msg = none ↔ sk.length ≠ 64) :=
   E2_panics seed sk msg
 
+omit [AddCommGroup G] in
 /-- **crypto.Signer**: the same signature for `crypto.Hash(0)`, an error for any pre-hash option. -/
 theorem signer_interface (sk msg : Bytes) (hf : ℕ) :
     signerSign lib sk msg 0 = (sign lib sk msg).map .ok ∧
@@ -52,6 +54,7 @@ theorem signer_interface (sk msg : Bytes) (hf : ℕ) :
 theorem scalar_encoding (n : ℕ) (hn : n < 2 ^ 256) : leNat (leBytes n 32) = n ∧ (leBytes n 32).length = 32 :=
   E2_leBytes n hn
 
+omit [AddCommGroup G] in
 /-- **determinism** is definitional in the model (`sign` is a function of key and message); on the
 implementation side the harness signs every input twice. -/
 theorem deterministic (sk msg : Bytes) (a b : Bytes) (ha : sign lib sk msg = some a) (hb : sign lib sk msg = some b) :
